@@ -160,7 +160,7 @@ class ADMM(Optimizer):
             + self.z_list
             + self.u_list
         ):
-            if not snp.all(snp.isfinite(v)):
+            if snp.any(snp.logical_not(snp.isfinite(v))):
                 return False
         return True
 
